@@ -652,6 +652,16 @@ inline std::vector<Shape> all_shapes() {
         v.push_back(s);
     }
     {
+        // four borders 8 | 15 | 1 | 8 : the single-key node sits right of a FULL node (unlink of a node whose previous sibling splits)
+        Shape s;
+        s.name = "I4_8_15_1_8";
+        s.inserts = seq(1, 32);
+        for (int i = 1; i <= 7; ++i) s.inserts.push_back("09" + std::to_string(i));
+        s.removes = seq(18, 24);
+        s.pal = {{"in", "08"}, {"in2", "16"}, {"only", "17"}, {"new", "098"}, {"new2", "175"}, {"edge", "32"}, {"first", "01"}, {"in3", "25"}};
+        v.push_back(s);
+    }
+    {
         // one long key next to short ones: layer 1 holds a single key
         Shape s;
         s.name = "L1one";
